@@ -43,6 +43,14 @@ def output_tags(out_src):
         tags.append("out:stmt-if-in-expr")
     if re.search(r"except [\w.]+ as [\d\"(]", out_src):
         tags.append("out:except-as-literal")
+    elif re.search(r"except [\w.]+ as [^\w\s]", out_src):
+        tags.append("out:except-as-literal")   # any non-identifier binder ('+err')
+    if re.search(r"(\breturn|=|\+|-|\*|/|\(|,)[ \t]*\+?[ \t]*(match|if) [^\n]*:[ \t]*\n", out_src + "\n") or re.search(r"(^|\n)[ \t]*[-+][ \t]*(match|if) [^\n]*:[ \t]*\n", out_src + "\n"):
+        tags.append("out:stmt-match-or-if-in-expr")
+    if re.search(r"\n[ \t]*case [^\n:]*(\+| in | is |\(\)\()[^\n:]*:", "\n" + out_src):
+        tags.append("out:expression-in-pattern")
+    if re.search(r"(^|\n)[ \t]*(from [\w.]+ )?import[ \t]*(\n|$)", out_src):
+        tags.append("out:empty-import")
     if re.search(r"def \w+\([^)\n]*\*\w+(: \w+)? = |def \w+\([^)\n]*\*\w+[^)\n]*\*\w+|def \w+\([^)\n]*= [^,)\n]+, \w+(: [\w\[\]]+)?[,)]", out_src):
         tags.append("out:bad-parameter-list")
     elif re.search(r"lambda [^:\n]*\*\w+ = |lambda [^:\n]*\*\w+[^:\n]*\*\w+|lambda [^:\n]*= [^,:\n]+, \*?\w+ *[,:]", out_src):
